@@ -371,6 +371,11 @@ VF_EXPORT long vf_wk_length_formula(int kind, int length, int signatures, int co
     return (long) embedded_pairing_wkdibe_secretkey_marshalled_length(length, signatures != 0, compressed != 0);
 }
 
+// the two-output sampler used by setup/keygen/qualifykey/encrypt/sign: decomposed exponent + the scalar it represents
+VF_EXPORT void vf_wk_random_zpstar_px(void* px, void* s) {
+    wk::random_zpstar(*(embedded_pairing::bls12_381::PowersOfX*) px, *(wk::Scalar*) s, vf_rand_bytes);
+}
+
 // ---- LQ-IBE (flat objects; images are passed directly) -------------------------------------------
 VF_EXPORT long vf_lq_sizeof(int kind) {
     switch (kind) {
